@@ -20,7 +20,7 @@
 
 """Signal block."""
 
-from beartype.typing import Any, Dict
+from beartype.typing import Optional, Any, Dict
 from serde import serde, strict, to_dict, field
 
 from .metadata import MetaData
@@ -32,9 +32,11 @@ class SignalBlock:
 
     name: str
     fields: Dict[str, Any]
-    meta: MetaData = field(skip=True)
+    meta: Optional[MetaData] = field(skip=True, default=None)
 
-    def __init__(self, name: str, fields: Dict[str, Any], meta: MetaData) -> None:
+    def __init__(
+        self, name: str, fields: Dict[str, Any], meta: Optional[MetaData] = None
+    ) -> None:
         self.name = name
         self.fields = fields
         self.meta = meta
